@@ -211,7 +211,7 @@ fn check_case(rep: &Report, c: &Case, idx: usize, env: &drive::Env) {
         rep.transition(1);
         pin_run(rep, "C08", &tag, &pinned, a, env, true);
     }
-    if idx % 997 == 3 {
+    if idx % 997 == 3 || rep.no_sample_yet() {
         rep.sample(4, || json!({"case": tag, "program": pinned.text.chars().take(1500).collect::<String>()}));
     }
 }
